@@ -69,7 +69,13 @@ TECHNIQUE = ("deterministic two-thread baton scheduler (sys.settrace line events
 RULE = ("Hypothesis draws a scenario = (method with slow commands, waits, thresholds, watches/alarms, blocks; input "
         "trajectory; Start + 0..N prefix ticks with optional earlier requests; 1-2 requests of kind method edit / inject / "
         "control command / cancel / force, payload resolved against the prefix state - a cancel/force asking for an eligible run-log "
-        "item extends the prefix by up to 12 ticks until one exists; N post ticks). Per scenario the tick "
+        "item extends the prefix by up to 12 ticks until one exists; N post ticks). A quarter of the scenarios are of the family "
+        "'acceptance depends on the order': a state-dependent control command racing with a tick that changes the run state "
+        "(completing tick of a Stop/Restart issued one tick earlier, or a second control command in the same step); half of "
+        "the earlier requests are issued right before the last prefix tick. Tick phases are labelled by the callee the ticking "
+        "thread has entered (read_process_image, Tracking.tick, PInterpreter.tick, update_calculated_tags, CommandManager.tick, "
+        "notify_tag_updates, write_process_image) and by ownership of engine._lock, not by the source text of Engine.tick; the "
+        "code of tick before the lock is taken (phases pre, read) is a pre-emption region like the rest. Per scenario the tick "
         "is profiled once (event count and phase of every pre-emption point) and schedules of 0-4 switch positions are "
         "derived from drawn numbers (first switch stratified over the distinct source locations of the tick, over its phases, "
         "over the phase boundaries, or uniform); the thorough tier additionally enumerates every single-switch position of "
